@@ -101,6 +101,7 @@ class WatermarkPoolSink(PoolSink):
       if item.state <= ChannelState.Open:
         return item
       else:
+        self._current_size -= 1
         self._DiscardSink(item)
     return None
 
